@@ -102,7 +102,7 @@ def run(tier):
         pool = interp.Pool()
         g = dict(gl)
         g['g0'] = pool.arr([interp.vflt(1), interp.vflt(2), ['str', 'x']])
-        return {'text': text, 'files': files, 'globals': g, 'max': limit, 'want_model': True}
+        return {'text': text, 'files': files, 'globals': g, 'max': limit, 'want_model': True, 'rerun_same_options': True}
 
     # pass 1: unlimited (capped) runs give N
     # (non-terminating recursion is only ever run under small limits: CPython's recursion limit is out of scope)
@@ -126,6 +126,12 @@ def run(tier):
         info = {'source': text, 'files': files, 'limit': lim, 'unlimited_count': n}
         if 'host' in res:
             chk.oracle_fail.append({'class': 'host-exception', **info, 'got': res})
+            continue
+        # (0) the counter is reset at execute_script entry: a second run with the same options object behaves like the first
+        sec = res.get('second')
+        if sec is not None and any(sec.get(k) != res.get(k) for k in ('res', 'rt', 'log', 'count')):
+            chk.oracle_fail.append({'class': 'second-run-with-the-same-options-differs', **info,
+                                    'first': {k: res.get(k) for k in ('res', 'rt', 'log', 'count')}, 'second': sec})
             continue
         # (2) metamorphic clauses against the unlimited run
         if n is not None and (lim == 0 or lim >= n):
